@@ -10,6 +10,8 @@ def jobs(tier):
     return [
         Job("c09_loss", "flt-asan", "enumerate", workers=W, enum_stride=64 if q else 1, maxtime=40 if q else 1500, fastsources=FAST, case_timeout=300, refs=("ref-flt",)),
         Job("c09_loss", "flt-asan", "random", workers=W, cases=45 if q else 500, maxtime=50 if q else 900, fastsources=FAST, case_timeout=300, refs=("ref-flt",)),
+        # the fixed-point build of the tree (its MDCT concealment is separate code) against the frozen fixed-point decoder
+        Job("c09_loss", "fix-asan", "random", workers=W, cases=32 if q else 400, maxtime=50 if q else 700, fastsources=FAST, case_timeout=300, refs=("ref-fix",), seed_salt=17),
     ]
 
 
